@@ -29,3 +29,53 @@ mutant("into_thin_hide_before_assert", ["C01", "C07", "C10"], [("src/thin_arc.rs
 # benign refactors
 benign("forget_instead_of_manuallydrop_into_raw", [("src/arc.rs", "let this = ManuallyDrop::new(this);\n        this.as_ptr()", "let p = this.as_ptr();\n        core::mem::forget(this);\n        p")])
 benign("drop_via_from_raw_inner", [("src/offset_arc.rs", "let _ = Arc::from_raw_offset(OffsetArc {\n            ptr: self.ptr,\n            phantom: PhantomData,\n        });", "drop(Arc::from_raw_offset(OffsetArc {\n            ptr: self.ptr,\n            phantom: PhantomData,\n        }));")])
+
+# ------------------------------------------------------------------ C04
+mutant("offset_with_arc_clone_call_drop", ["C04"], [("src/offset_arc.rs",
+    "let transient = unsafe { ManuallyDrop::new(Arc::from_raw(self.ptr.as_ptr())) };\n\n        // Expose the transient Arc to the callback, which may clone it if it wants\n        // and forward the result to the user\n        f(&transient)",
+    "let transient = unsafe { ManuallyDrop::new(Arc::from_raw(self.ptr.as_ptr())) };\n        let real = Arc::clone(&transient);\n        f(&real)")])
+mutant("strong_count_minus_one", ["C04"], [("src/arc.rs", "this.inner().count.load(Relaxed)\n    }", "this.inner().count.load(Relaxed).wrapping_sub(0).max(1)\n    }")])
+mutant("thin_strong_count_constant", ["C04"], [("src/thin_arc.rs", "Self::with_arc(this, Arc::strong_count)", "Self::with_arc(this, |_| 1)")])
+mutant("borrow_arc_bumps", ["C04", "C01"], [("src/arc.rs", "unsafe { ArcBorrow(NonNull::new_unchecked(self.as_ptr() as *mut T), PhantomData) }", "core::mem::forget(self.clone());\n        unsafe { ArcBorrow(NonNull::new_unchecked(self.as_ptr() as *mut T), PhantomData) }")])
+mutant("arcunion_strong_count_wrong_variant_const", ["C04"], [("src/arc_union.rs", "ArcUnionBorrow::Second(arc) => ArcBorrow::strong_count(arc),", "ArcUnionBorrow::Second(_arc) => 1,")])
+
+# ------------------------------------------------------------------ C07
+mutant("iter_ctor_make_before_loop", ["C07", "C06"], [("src/header.rs",
+    "        let inner = Arc::allocate_for_header_and_slice(num_items);\n\n        unsafe {\n            // Write the data.\n            //\n            // Note that any panics here",
+    "        let inner = Arc::allocate_for_header_and_slice(num_items);\n        let early = Arc { p: inner, phantom: PhantomData };\n\n        unsafe {\n            // Write the data.\n            //\n            // Note that any panics here"),
+    ("src/header.rs", "                \"ExactSizeIterator under-reported length\"\n            );\n        }\n\n        // Safety: ptr is valid & the inner structure is fully initialized\n        Arc {\n            p: inner,\n            phantom: PhantomData,\n        }",
+     "                \"ExactSizeIterator under-reported length\"\n            );\n        }\n\n        early")])
+mutant("iter_ctor_no_trailing_check", ["C07", "C06"], [("src/header.rs", "            assert!(\n                items.next().is_none(),\n                \"ExactSizeIterator under-reported length\"\n            );\n", "")])
+mutant("iter_ctor_break_on_short", ["C07", "C06"], [("src/header.rs",
+    "                ptr::write(\n                    current,\n                    items\n                        .next()\n                        .expect(\"ExactSizeIterator over-reported length\"),\n                );",
+    "                match items.next() { Some(x) => ptr::write(current, x), None => break }")])
+mutant("with_arc_mut_no_guard_on_unwind", ["C07", "C10"], [("src/thin_arc.rs",
+    "        let mut guard = DropGuard {\n            transient,\n            this: self,\n        };\n\n        // Expose the transient Arc to the callback, which may clone it if it wants\n        // and forward the result to the user\n        let ret = f(&mut guard.transient);",
+    "        let mut guard = ManuallyDrop::new(DropGuard {\n            transient,\n            this: self,\n        });\n\n        let ret = f(&mut guard.transient);\n        let guard = ManuallyDrop::into_inner(guard);")])
+mutant("guard_drop_no_writeback", ["C07", "C10"], [("src/thin_arc.rs", "                self.this.ptr = self.transient.p.cast();", "                let _ = &self.this;")])
+mutant("make_mut_assign_before_clone", ["C07", "C08", "C01"], [("src/arc.rs",
+    "    pub fn make_mut(this: &mut Self) -> &mut T {\n        if !this.is_unique() {\n            // Another pointer exists; clone\n            *this = Arc::new(T::clone(this));\n        }",
+    "    pub fn make_mut(this: &mut Self) -> &mut T {\n        if !this.is_unique() {\n            // Another pointer exists; clone\n            let old = unsafe { ptr::read(this) };\n            let new = Arc::new(T::clone(&old));\n            drop(old);\n            unsafe { ptr::write(this, new) };\n        }")])
+mutant("alloc_no_null_check", ["C07", "C05"], [("src/arc.rs", "let ptr = NonNull::new(alloc::alloc::alloc(layout)).ok_or(())?;", "let ptr = NonNull::new_unchecked(alloc::alloc::alloc(layout));\n        if false { return Err(()); }")])
+mutant("new_uninit_alloc_error_to_unwrap_unchecked", ["C07", "C05"], [("src/unique_arc.rs", "            let mut p = NonNull::new(ptr)\n                .unwrap_or_else(|| alloc::alloc::handle_alloc_error(layout))\n                .cast::<ArcInner<MaybeUninit<T>>>();", "            let mut p = NonNull::new_unchecked(ptr)\n                .cast::<ArcInner<MaybeUninit<T>>>();")])
+
+# ------------------------------------------------------------------ C08
+mutant("make_mut_clone_on_unique", ["C08", "C04"], [("src/arc.rs",
+    "    pub fn make_mut(this: &mut Self) -> &mut T {\n        if !this.is_unique() {",
+    "    pub fn make_mut(this: &mut Self) -> &mut T {\n        if this.is_unique() {")])
+mutant("make_unique_never_clones", ["C08", "C03"], [("src/arc.rs",
+    "    pub fn make_unique(this: &mut Self) -> &mut UniqueArc<T> {\n        if !this.is_unique() {\n            // Another pointer exists; clone\n            *this = Arc::new(T::clone(this));\n        }",
+    "    pub fn make_unique(this: &mut Self) -> &mut UniqueArc<T> {\n        if !this.is_unique() {\n            let _ = T::clone(this);\n        }")])
+mutant("make_mut_ref_before_redirect", ["C08", "C03"], [("src/arc.rs",
+    "    pub fn make_mut(this: &mut Self) -> &mut T {\n        if !this.is_unique() {\n            // Another pointer exists; clone\n            *this = Arc::new(T::clone(this));\n        }\n\n        unsafe {",
+    "    pub fn make_mut(this: &mut Self) -> &mut T {\n        let early: *mut T = unsafe { &mut (*this.ptr()).data };\n        if !this.is_unique() {\n            // Another pointer exists; clone\n            *this = Arc::new(T::clone(this));\n            return unsafe { &mut *early };\n        }\n\n        unsafe {")])
+mutant("make_mut_forget_old", ["C08", "C01", "C04"], [("src/arc.rs",
+    "    pub fn make_mut(this: &mut Self) -> &mut T {\n        if !this.is_unique() {\n            // Another pointer exists; clone\n            *this = Arc::new(T::clone(this));\n        }",
+    "    pub fn make_mut(this: &mut Self) -> &mut T {\n        if !this.is_unique() {\n            // Another pointer exists; clone\n            let new = Arc::new(T::clone(this));\n            core::mem::forget(core::mem::replace(this, new));\n        }")])
+mutant("offset_make_mut_stale_writeback", ["C08", "C01"], [("src/offset_arc.rs", "ptr::write(self, Arc::into_raw_offset(ManuallyDrop::into_inner(arc)));", "let _ = &arc;")])
+
+# ------------------------------------------------------------------ C09
+mutant("into_inner_double_destructor", ["C09", "C01"], [("src/unique_arc.rs", "unsafe { Box::from_raw(this.ptr()).data }", "unsafe { let v = ptr::read(&(*this.ptr()).data); drop(Box::from_raw(this.ptr())); v }")])
+mutant("into_inner_leaks_block", ["C09", "C01"], [("src/unique_arc.rs", "unsafe { Box::from_raw(this.ptr()).data }", "unsafe { ptr::read(&(*this.ptr()).data) }")])
+mutant("try_unique_returns_clone_on_decline", ["C09", "C03"], [("src/arc.rs", "            unsafe { Ok(UniqueArc::from_arc(this)) }\n        } else {\n            Err(this)\n        }", "            unsafe { Ok(UniqueArc::from_arc(this)) }\n        } else {\n            Err(this.clone())\n        }")])
+mutant("try_unwrap_falls_back_to_into_inner", ["C09", "C03"], [("src/arc.rs", "Self::try_unique(this).map(UniqueArc::into_inner)", "Self::try_unique(this).map(UniqueArc::into_inner).or_else(|a| Ok::<T, Self>(UniqueArc::into_inner(unsafe { UniqueArc::from_arc(a) })))")])
